@@ -9,6 +9,18 @@ CHECKS = {
  "C01": (True, "runtime monitor: before/after snapshots of every simplifier x backend evaluated by an independent exact ZX evaluator; rewrite-budget hook for termination; panics as data",
          "Exploration: every simplification procedure is executed on generated well-formed diagrams (arbitrary, graph-like, gadget-rich, circuit-derived; exhaustive for <=2 (quick) / <=3 (thorough) spiders) in both backends and the linear map before/after is compared exactly in Z[omega][1/2] (1e-8 for non-pi/4 phases). Held on the executions produced, not a proof.",
          "Trusted base: harness oracles O1 (ring) and O2 (evaluator), self-tested and cross-checked against O3 at every start; termination only in bounded-progress form (rewrite budget).", "6/C01"),
+ "C02": (True, "runtime monitor: differential check of the real translation (3 modes x 2 backends) - independent ZX evaluator on the produced diagram vs independent gate-matrix simulator on the circuit",
+         "Exploration: generated circuits over the whole supported gate set (exhaustive single-gate placements for n<=3/4; random unitary, ancilla/post-selection interleaved, swap-heavy, CCZ/Toffoli families) are translated by the real code in all three modes and both backends; the diagram's tensor (O2) must equal the circuit's matrix (O3) exactly incl. scalar (1e-8 for non-pi/4 phases).",
+         "Trusted base: oracles O2 and O3, written from the definitions, self-tested and cross-checked against each other at every start.", "6/C02"),
+ "C03": (True, "runtime monitor: real simplify+extract pipeline (10 configurations x 2 backends) and the real `quizx opt` binary as a subprocess, judged by an independent simulator (exact projective comparison) and an independent QASM mini-parser",
+         "Exploration: for generated unitary circuits every (strategy, extractor) configuration must return Ok, keep the qubit count, emit only H/ZPhase/CZ/CNOT/SWAP and be proportional to the input (exact cross-multiplication in Z[omega][1/2] for pi/4 phases; existence of an input permutation for up_to_perm); the CLI is run end to end on harness-printed QASM and its output is parsed independently and by from_qasm.",
+         "Trusted base: simulator O3 and the 60-line QASM reader; CLI runs use a 120 s watchdog whose firing is inconclusive.", "6/C03"),
+ "C04": (True, "runtime monitor: every primitive rule x every argument tuple (incl. equal, boundary, non-existent ids) x 2 backends; accepted => independent evaluator before/after, rejected => derived PartialEq of the backend; exhaustive over tiny diagrams",
+         "Exploration with an exhaustive core: all diagrams with <=2 (quick) / <=3 (thorough) spiders over {Z,X} x 5 phases x {none,N,H} edges x <=2 boundaries are enumerated completely, plus random arbitrary / graph-like / gadget-rich diagrams; for each, all 15 matcher/rule pairs are driven on every vertex / ordered vertex pair and two missing ids.",
+         "Trusted base: evaluator O2 / ring O1; 'bit-for-bit unchanged' = backend PartialEq.", "6/C04"),
+ "C10": (True, "runtime monitor: rules and simplifiers on diagrams with variable parities, compared under ALL assignments by harness-side instantiation + independent evaluator; measurement circuits vs independent simulator with projected outcomes",
+         "Exploration: diagrams whose spiders carry XORs over {b0,b1,b2,b5} (variable 0 included on purpose); every accepted rule application and all 13 simplifiers are checked under every assignment (2^n, n<=5) in both backends; circuits with measure_d/measure_r (explicit and fresh variables) are translated in 3 modes x 2 backends and compared with the projected map for every outcome.",
+         "Trusted base: O1/O2/O3; instantiation reads vars(), scalar_factors(), Expr/Parity iterators (constant bit recovered through PartialEq).", "6/C10"),
 }
 
 NOT_YET = {}
